@@ -70,6 +70,30 @@ fn check(s: &Shape, case: &str, rep: &mut Report) {
         }
         Err(_) => rep.violation(&format!("{}/header", tname), case, detail("writer failed on a cursor", 0, 0)),
     }
+    // the same shape as SECOND record behind a minimal one of its type: every record header
+    // stores the size of its own content
+    if !matches!(s, Shape::NullShape) {
+        let mut r0 = crate::rng::Rng::new(7);
+        let first = gen::shape_exact(d.ty, &mut r0, &Cfg::plain(1, 1), 1, 1);
+        let mut fb: Vec<u8> = Vec::new();
+        let _ = with_concrete!(&first, x => x.write_to(&mut fb));
+        let pair = [first, crate::shapes::clone_shape(s)];
+        match crate::shapes::write_all_mem(&pair, true) {
+            Ok((shp, _)) => {
+                let second = 100 + 8 + 4 + fb.len();
+                rep.count("second_record_headers_checked", 1);
+                if shp.len() < second + 8 {
+                    rep.violation(&format!("{}/header", tname), case, detail("two-record file too short for its second record header", shp.len(), second + 8));
+                } else {
+                    let words = i32::from_be_bytes([shp[second + 4], shp[second + 5], shp[second + 6], shp[second + 7]]) as i64;
+                    if words * 2 != buf.len() as i64 + 4 || shp.len() != second + 8 + 4 + buf.len() || shp[second + 12..] != buf[..] {
+                        rep.violation(&format!("{}/header", tname), case, detail("second record: content length words*2 != emitted+4, or content != write_to bytes", (words * 2) as usize, buf.len() + 4));
+                    }
+                }
+            }
+            Err(_) => rep.violation(&format!("{}/header", tname), case, detail("writer failed on a two-record file", 0, 0)),
+        }
+    }
     rep.sample(|| J::obj(vec![("case", J::s(case)), ("parts", J::UInt(p as u64)), ("points", J::UInt(n as u64)), ("announced", J::UInt(announced as u64)), ("emitted", J::UInt(buf.len() as u64))]));
 }
 
@@ -95,6 +119,12 @@ pub fn run(ctx: &Ctx) -> Report {
         }
         for k in 0..n_rand {
             items.push((t, 0, 0, k as u64 + 1));
+        }
+        // part counts around 64 and 128 (two vertices per part)
+        if !gen::is_point(t) && !gen::is_multipoint(t) && !cfg!(miri) {
+            for p in [63usize, 64, 65, 127, 128, 129, 300] {
+                items.push((t, p, 2, 0));
+            }
         }
     }
     let seed = ctx.seed;
@@ -127,6 +157,16 @@ pub fn run(ctx: &Ctx) -> Report {
             let u = crate::shapes::with_nan_xy(&s, 1 + (i + l) % 3, ((i + p) % 3) as u8);
             check(&u, &format!("{}:nan-xy", case), rep);
             rep.count("nan_coordinate_variants", 1);
+        }
+        // the same shape with every vertex written twice in a row (consecutive identical vertices)
+        if !gen::is_point(t) {
+            let dd = s.d();
+            let input: Vec<(i32, Vec<[u64; 4]>)> = dd.parts.iter().enumerate().map(|(k, p)| (dd.kinds.get(k).copied().unwrap_or(0), p.iter().flat_map(|v| [*v, *v]).collect())).collect();
+            if input.iter().all(|(_, p)| !p.is_empty()) {
+                let u = crate::shapes::build_from_parts(t, &input, false);
+                check(&u, &format!("{}:doubled-vertices", case), rep);
+                rep.count("doubled_vertex_variants", 1);
+            }
         }
         // the same polygon / multipatch with vertex-less rings / patches inserted after the first
         if gen::is_polygon(t) || t == 31 {
